@@ -269,7 +269,7 @@ class TenantWorld(object):
                 events[-1]['faults'] = [f for f in events[-1]['faults'] if f['kind'] != 'F6']
                 events.append(dup)
         return {'world': 'tenants', 'profile': prof['name'], 'tenants': tenants, 'shared': shared,
-                'events': events, 'fault_free': fault_free}
+                'events': events, 'fault_free': fault_free, 'r3': rng.random() < prof.get('r3', 0.0)}
 
     def gen_credit(self, rng, gid):
         if self.profile.get('credit_grid') and rng.random() < 0.8:
@@ -419,6 +419,23 @@ class TenantWorld(object):
         st = Run(self, journal, baseline)
         return st.run()
 
+    def audit(self, journal, job):
+        """
+        R3: recompute one call's fresh-instance outcome in a process that has executed nothing
+        else (the caller forks it from the pristine zygote).  Assumes nothing about where global
+        state lives: it catches pollution that reaches the in-process replica as well.
+        """
+        run = Run(self, journal, None)
+        run.built_reg = job['built_reg']
+        run.dict_reg = job['dict_reg']
+        run.reg = job['reg_now']
+        run.apply_reg(run.reg)
+        ev = job['ev']
+        inp = decode_input(ev['input'])
+        kw = {'attempt': ev['attempt']} if 'attempt' in ev else {}
+        o, _, _ = run.replica_outcome(job['gid'], ev, ev.get('expect'), inp, kw, job['prime'])
+        return {'o': o}
+
 
 class Run(object):
     def __init__(self, world, journal, baseline):
@@ -454,6 +471,7 @@ class Run(object):
         self.dgn = {}
         self.last_call = {}
         self.dict_reg = {}
+        self.r3_jobs = []
 
     def bump(self, d, key, n=1):
         d[key] = d.get(key, 0) + n
@@ -638,6 +656,22 @@ class Run(object):
         env.end()
         return o, raw, extra
 
+    def replica_outcome(self, gid, ev, expect, inp, kw, prime, measure=False):
+        """R1: the same call on a fresh instance (primed with the last good expect if needed)."""
+        tp = self.tenants[gid]
+        env2, b2, g2, ob = self.replica(gid)
+        self.bump(self.refs, 'R1')
+        if g2 is None:
+            return ob, {}, b2
+        if prime is not None:
+            env2.begin({'faults': []})
+            seams.seed_lib(0)
+            outcome(g2, prime, tp['pal']['right'][0])
+            env2.end()
+            self.bump(self.probes, 'replica primed with last good expect')
+        o_r, _, x_r = self.deliver(g2, env2, ev, expect, inp, kw, measure=measure)
+        return o_r, x_r, b2
+
     def do_call(self, i, ev):
         gid = ev['g']
         tp = self.tenants[gid]
@@ -671,18 +705,7 @@ class Run(object):
         x2 = None
 
         def run_replica(measure=False):
-            env2, b2, g2, ob = self.replica(gid)
-            self.bump(self.refs, 'R1')
-            if g2 is None:
-                return ob, {}, b2
-            if prime is not None:
-                env2.begin({'faults': []})
-                seams.seed_lib(0)
-                outcome(g2, prime, tp['pal']['right'][0])
-                env2.end()
-                self.bump(self.probes, 'replica primed with last good expect')
-            o_r, _, x_r = self.deliver(g2, env2, ev, expect, inp, kw, measure=measure)
-            return o_r, x_r, b2
+            return self.replica_outcome(gid, ev, expect, inp, kw, prime, measure)
 
         if 'headroom' in ev:
             # F3: measure the call's peak depth on the replica, then strike inside it
@@ -720,6 +743,13 @@ class Run(object):
                                  'call #%d on %s(%s) expect=%r[%s] input=%r: got %s ; a fresh instance gives %s'
                                  % (i, cls, gid, expect, ev.get('ecls'), ev['input'], short(o), short(o2)),
                                  sig='R1|%s|%s|%s' % (cls, short(o, 60), short(o2, 60)))
+        if self.j.get('r3') and 'R1' in self.judges and 'headroom' not in ev:
+            # R3: the same fresh-instance computation, to be repeated in a pristine process
+            refs = self.refs_of(tp['bp'])
+            self.r3_jobs.append({
+                'i': i, 'gid': gid, 'ev': ev, 'prime': prime, 'o': o, 'reg_now': copy.deepcopy(self.reg),
+                'built_reg': {k: v for k, v in self.built_reg.items() if k == gid or k in refs},
+                'dict_reg': dict(self.dict_reg)})
         # reference state machine: last successfully supplied expect
         if not tp['configured'] and expect is not None:
             if ev.get('ecls') in ('valid', 'other'):
@@ -1188,11 +1218,14 @@ class Run(object):
         if self.n_events:
             sample = {'tenants': {g: t['bp']['cls'] for g, t in self.tenants.items()},
                       'events': [self.brief(e) for e in events[:12]]}
-        return {'violations': self.violations, 'fired': self.stats, 'probes': self.probes,
+        extra = {}
+        if self.r3_jobs:
+            extra['r3_jobs'] = self.r3_jobs
+        return dict(extra, **{'violations': self.violations, 'fired': self.stats, 'probes': self.probes,
                 'refs': self.refs, 'events': self.n_events, 'sim_time': self.sim_time,
                 'sig': core.jdigest(self.sig), 'nontrivial': bool(nontrivial),
                 'class': 'fault-injecting' if fault_kinds else 'fault-free',
-                'log': core.jdigest(self.log), 'sample': sample}
+                'log': core.jdigest(self.log), 'sample': sample})
 
     def brief(self, e):
         if e['op'] == 'call':
